@@ -4,7 +4,7 @@ import lib
 import gen_prog as GP
 import gen_coff as GC
 
-NEEDS_VO = ["Check/Prog.v"]
+NEEDS_VO = ["Check/Prog.v", "Model/Lex.v", "Check/C12.v"]
 CCH = "abcxyz ABC 0123456789 ,;#:\"'[]()+-*/%$_.\t MOV EQU DB label: 0x10 !?<>=&|~^@`{}\\"
 
 
@@ -88,6 +88,24 @@ def run(v, tier, rng):
                 else:
                     v.violation("re-laid-out source (comments / spacing / line endings only) assembles differently", w)
                 break
+    # ---- tie of Model/Lex.v (the `_` rule) to the real parser: a byte string w in front of "NOP\n"
+    # parses to exactly one NOP statement  <->  the model's skip_layout consumes w entirely
+    alpha = [32, 32, 9, 10, 13, 59, 35, 97, 58, 34, 44, 120, 39]
+    lex = []
+    for _ in range(400 if tier == "quick" else 4000):
+        w = bytes(rng.choice(alpha) for _ in range(rng.choice([0, 1, 2, 4, 8, 16])))
+        lex.append(w)
+    lres = lib.run_ast([{"id": str(i), "srcs_hex": [(w + b"NOP\n").hex()]} for i, w in enumerate(lex)], "c12lex")
+    items = []
+    for i, w in enumerate(lex):
+        r = lres[str(i)]
+        is_nop = (not r.get("err")) and r.get("sexp") == ['(op "NOP")']
+        items.append("(%s, %s)" % (lib.gbytes(list(w + b"NOP\n")), "true" if is_nop else "false"))
+    lbad = lib.coq_eval("c12lex", lib.header("Check.C12", "check_lex"), items, per_file=400)
+    if lbad and not v.violations:
+        v.tie_broken("correspondence Model/Lex.v (layout rule) vs the pigeon parser", {"prefix_hex": lex[lbad[0]].hex(), "parser": lres[str(lbad[0])]})
+    v.extra["lex_correspondence_cases"] = len(lex)
+    v.extra["lex_correspondence_mismatches"] = len(lbad)
     v.cov.update({"evaluations": len(cases), "distinct_nontrivial": nontriv,
                   "rule": "random flat and WCOFF programs (strings containing ; # ,) x %d token-wise re-layouts each: comment after any statement and on own lines with arbitrary non-EOL characters (incl. : , \" ' keywords), blank lines, indentation by tabs/spaces, spaces around commas/operators/brackets, trailing whitespace, LF/CRLF/CR, with/without final newline; output and diagnostic flag must equal the canonical layout's; non-trivial = re-layouts compared" % K,
                   "samples": [cases[1]["srcs"][0][:400]], "programs": len(progs)})
